@@ -108,12 +108,20 @@ StructAngles(s, lay) ==
                                    IN <<<<t[1] - 1, t[2] - 1, t[3] - 1>>, <<t[2] - 1, t[3] - 1, t[1] - 1>>>>]))   \* same atoms, permuted
 \* flavours: "p" both sides carry coefficient tables, "b" neither does, "m" the documented CIF workflow: the
 \* structure has atom types but no pair-coefficient table and no terms, the replacement pattern is parameterised
-StructK(s, lay, fl) == IF fl = "m" THEN MkK("S", StructAtoms(s, lay), <<>>, <<>>, 0, 0, "b", TheCell)
+StructK(s, lay, fl) == IF fl = "d" THEN MkK("S", StructAtoms(s, lay), StructBonds(s, lay), StructAngles(s, lay), 0, 0, "p", TheCell)
+                       ELSE IF fl = "m" THEN MkK("S", StructAtoms(s, lay), <<>>, <<>>, 0, 0, "b", TheCell)
                        ELSE MkK("S", StructAtoms(s, lay), StructBonds(s, lay), StructAngles(s, lay), 0, 0, fl, TheCell)
-SPK(s) == MkK("SP", SPdef(s), <<>>, <<>>, 100, 3, "b", <<>>)
+\* flavour "d": force-field style type tables that list every element under two type ids (the same table in both
+\* patterns); the first atom of the replacement pattern uses the second id of its element, the search pattern the first
+Double(K, S) == [K EXCEPT !.tel = K.tel \o K.tel, !.tmass = K.tmass \o K.tmass,
+                          !.tlab = K.tlab \o [t \in 1..Len(K.tlab) |-> K.tlab[t] \o "2"],
+                          !.tpc = IF K.tpc = <<>> THEN <<>> ELSE K.tpc \o [t \in 1..Len(K.tpc) |-> K.tpc[t] \o " second"],
+                          !.ty = [i \in 1..Len(K.ty) |-> IF i \in S THEN K.ty[i] + Len(K.tel) ELSE K.ty[i]]]
+SPK(s, fl) == LET K == MkK("SP", SPdef(s), <<>>, <<>>, 100, 3, "b", <<>>) IN IF fl = "d" THEN Double(K, {}) ELSE K
 RPK(r, fl) == IF RPdef(r).atoms = <<>>
               THEN [MkK("RP", <<>>, <<>>, <<>>, 200, 5, "b", <<>>) EXCEPT !.tel = <<>>, !.tmass = <<>>, !.tlab = <<>>]   \* Atoms()
-              ELSE MkK("RP", RPdef(r).atoms, RPdef(r).bonds, RPdef(r).angles, 200, 5, IF fl = "m" THEN "p" ELSE fl, <<>>)
+              ELSE LET K == MkK("RP", RPdef(r).atoms, RPdef(r).bonds, RPdef(r).angles, 200, 5, IF fl \in {"m", "d"} THEN "p" ELSE fl, <<>>)
+                   IN IF fl = "d" THEN Double(K, {1}) ELSE K
 
 FracsQ == {<<1, 1>>, <<1, 2>>, <<0, 1>>}
 FracsT == {<<1, 1>>, <<1, 2>>, <<1, 3>>, <<2, 3>>, <<1, 4>>, <<0, 1>>}
@@ -131,7 +139,7 @@ Spec == Init /\ [][Next]_vars
 
 FoundOf(q) == [a \in 1..Len(q.ord) |-> [t |-> CopyTuple(q.s, q.lay, q.ord[a]), ns |-> [i \in 1..Len(SPdef(q.s)) |-> <<0, 0, 0>>],
                                         lat |-> "ok", rot |-> 0]]
-Event(q) == [kind |-> "replace", pre |-> StructK(q.s, q.lay, q.fl), sp |-> SPK(q.s), rp |-> RPK(q.r, q.fl),
+Event(q) == [kind |-> "replace", pre |-> StructK(q.s, q.lay, q.fl), sp |-> SPK(q.s, q.fl), rp |-> RPK(q.r, q.fl),
              found |-> FoundOf(q), stub |-> "yes", fn |-> q.fn, fd |-> q.fd, replace_all |-> q.rall, ignore |-> q.ign,
              rotbound |-> 1100]
 
